@@ -466,7 +466,7 @@ def _np_eval(s, env):
     return v
 
 
-def same_family(f, u, rng, nsamples=6, stats=None):
+def same_family(f, u, rng_unused, nsamples=10, stats=None):
     """Forward direction of 'both describe the same family of curves': for sampled parameters of f there are
     parameters of u with u(.;phi) = f(.;theta) on 8 abscissae.  Returns True / False / None (inconclusive).
     A sample is a *hard failure* if neither the candidate values (one- and two-level combinations of theta) nor
@@ -480,6 +480,10 @@ def same_family(f, u, rng, nsamples=6, stats=None):
     if key in _family_cache:
         v = _family_cache[key]
         return v
+    # the verdict must be a pure function of the pair (replayable, independent of which worker saw which pair first)
+    import hashlib
+    import random as _random
+    rng = _random.Random(int.from_bytes(hashlib.sha256(repr(key).encode()).digest()[:8], 'big'))
     kf, ku = nparams(f), nparams(u)
     xs = np.array([0.37, 0.61, 0.93, 1.21, 1.58, 1.97, 2.44, 2.89])
     hard = succ = valid = 0
